@@ -87,8 +87,9 @@ def not_a_message(ctx: Ctx, chk) -> None:
     rule = "NOT-A-MESSAGE"
     chk.rule(rule, "an object that is not a message is rejected as an invalid message: the dump runs first inside try/except ValidationError -> InvalidMessageError, and the post_dump hook converts a missing field (KeyError) into ValidationError")
     eea = ctx.eea()
-    send = ctx.func(SEND)
-    fr = Frame(ctx.I.make_callee(send, send.cls), None)
+    send_raw = ctx.func(SEND)
+    fr = Frame(ctx.I.make_callee(send_raw, send_raw.cls), None)
+    send = ctx.inl(send_raw)  # the validation step may be extracted into a private helper
     dumps = [n for n in ctx.own_nodes(send) if isinstance(n, ast.Call) and isinstance(n.func, ast.Attribute) and n.func.attr == "dump"]
     if len(dumps) != 1:
         raise AnalysisError(f"NOT-A-MESSAGE: expected one schema dump in Gateway.send, found {len(dumps)}")
@@ -96,7 +97,17 @@ def not_a_message(ctx: Ctx, chk) -> None:
     chk.instance(rule)
     key = f"{send.fq}::dump-first"
     # dump precedes the handler dispatch and is wrapped
-    others = [n for n in ctx.own_nodes(send) if isinstance(n, ast.Call) and n is not d and n.lineno < d.lineno and not (isinstance(n.func, ast.Attribute) and n.func.attr in ("debug",))]
+    from ..cfg import CFG as _CFG
+
+    g_ = _CFG(send.node)
+    dn = g_.nodes_where(lambda x: x.contains(d))
+    others = []
+    for x in g_.nodes:
+        if x.ast is None or x in dn or x.kind in ("join", "dispatch", "handler"):
+            continue
+        calls_ = [c for p_ in x.parts() for c in ast.walk(p_) if isinstance(c, ast.Call) and not (isinstance(c.func, ast.Attribute) and c.func.attr == "debug")]
+        if calls_ and not (dn and all(any(g_.dominates(a, x) for a in dn) for _ in [0])):
+            others.append(x)
     tr = None
     cur = d
     while cur in ctx.prog.parents and cur is not send.node:
@@ -155,6 +166,7 @@ def outcome1(ctx: Ctx, chk) -> None:
                 if f in done:
                     continue
                 done.add(f)
+                f = ctx.inl(f, lambda h: not h.name.lstrip("_").startswith("handle"))
                 chk.instance(rule)
                 g = CFG(f.node)
                 stores = set()
